@@ -46,6 +46,14 @@ def gen_ops(rng, model):
         if kind == 'rr': ovr += [['remove', s, e['key'], sp], ['remove', s, e['key'], sp2]]
         elif kind == 'oo': ovr += [['override', s, e['key'], sp, replacement_value(rng, s, e)], ['override', s, e['key'], sp2, replacement_value(rng, s, e)]]
         else: ovr += [['override', s, e['key'], sp, replacement_value(rng, s, e)], ['remove', s, e['key'], sp2]]
+    # the very same option text given again after a different one (V1, V2, V1: by hand the item ends up with V1), and the very same
+    # addition given twice (by hand the second one finds the item there)
+    if items and rng.random() < 0.15:
+        s, e = rng.choice(items); sp = rng.randint(0, 4)
+        v1 = replacement_value(rng, s, e); v2 = e['val'] if e['val'] != v1 else replacement_value(rng, s, e)
+        ovr += [['override', s, e['key'], sp, v1], ['override', s, e['key'], sp, v2], ['override', s, e['key'], sp, v1]]
+    if rng.random() < 0.1:
+        a = ['add', ('Other', 'Extra'), ('opt', 'twice'), 0, 'v1']; adds += [a, list(a)]
     # remove an item and add it back with another value; the same addition given twice
     if items and rng.random() < 0.2:
         s, e = rng.choice(items)
